@@ -30,6 +30,7 @@ package redisemu
 //@ ensures counted: gUnblockCalls == old(gUnblockCalls) + 1
 
 //@ func fnClientUnblock
+//@ guards on
 //@ prop C12
 //@ safetyprop none
 //@ requires free registry: forall k int64 :: haskey(clients, k) ==> clients[k] != nil
